@@ -37,7 +37,8 @@ CHECKS = {
         technique="explicit-state model checking (stateright) of the real DiplomatWrite under every pattern of grow() answers, against a (content, failed, cap) reference model",
         text="All histories of write_str / write! / flush up to the depth bound, for caller-supplied, Rust-owned and fixed-buffer writers, all initial capacities in the "
              "bound and every fail/exact/slack answer of grow(), are executed on the real runtime with canary-guarded exactly-sized buffers and compared step by step "
-             "with the reference writer; this is the fault quantifier of the property enumerated exhaustively.",
+             "with the reference writer; this is the fault quantifier of the property enumerated exhaustively. For the Rust-owned writer a tracking allocator is switched on around create / grow / destroy: every release "
+             "must carry the layout of its allocation, reallocations always move (and poison) the block, and nothing may stay allocated after destroy.",
         note="Trusted: #[repr(C)] mirror of DiplomatWrite (size/align asserted), canary detection of out-of-capacity writes (32-byte guards), rustc/miri."),
     "C16": dict(
         category="model_checking", design="§2 C16",
